@@ -65,3 +65,81 @@ func VerifC43Sync(path string, tunnels []Tunnel, registered []string, registered
 	c.SyncConfigTunnels(context.Background())
 	return append([]Tunnel{}, c.Configuration.Tunnels...), fake.Calls, fake.Published
 }
+
+// verifC43RmTun is the scripted service plus ONE re-entrant removal: while the client's sync is
+// waiting for the answer of the RPC named by (point, k) — "r" = RegisteredHostnames, "g" = the k-th
+// GenerateHostname call, "p" = the k-th PublishTunnel call (0-based) — `hook` runs (it calls
+// UnpublishTunnel / ReleaseTunnel on the same client, as the local UI / control API would).
+type verifC43RmTun struct {
+	verifC43Tun
+	point   string
+	k       int
+	hook    func()
+	Fired   bool
+	Removed []string // hostnames passed to UnpublishTunnel / ReleaseTunnel RPCs
+}
+
+func (f *verifC43RmTun) fire(point string, k int) {
+	if !f.Fired && f.point == point && f.k == k {
+		f.Fired = true
+		f.hook()
+	}
+}
+
+func (f *verifC43RmTun) RegisteredHostnames(ctx context.Context, req *protocol.RegisteredHostnamesRequest) (*protocol.RegisteredHostnamesResponse, error) {
+	f.fire("r", 0)
+	return f.verifC43Tun.RegisteredHostnames(ctx, req)
+}
+
+func (f *verifC43RmTun) GenerateHostname(ctx context.Context, req *protocol.GenerateHostnameRequest) (*protocol.GenerateHostnameResponse, error) {
+	f.fire("g", f.Calls)
+	return f.verifC43Tun.GenerateHostname(ctx, req)
+}
+
+func (f *verifC43RmTun) PublishTunnel(ctx context.Context, req *protocol.PublishTunnelRequest) (*protocol.PublishTunnelResponse, error) {
+	f.fire("p", len(f.Published))
+	return f.verifC43Tun.PublishTunnel(ctx, req)
+}
+
+func (f *verifC43RmTun) UnpublishTunnel(_ context.Context, req *protocol.UnpublishTunnelRequest) (*protocol.UnpublishTunnelResponse, error) {
+	f.Removed = append(f.Removed, "u:"+req.GetHostname())
+	return &protocol.UnpublishTunnelResponse{}, nil
+}
+
+func (f *verifC43RmTun) ReleaseTunnel(_ context.Context, req *protocol.ReleaseTunnelRequest) (*protocol.ReleaseTunnelResponse, error) {
+	f.Removed = append(f.Removed, "l:"+req.GetHostname())
+	return &protocol.ReleaseTunnelResponse{}, nil
+}
+
+// VerifC43SyncRm is VerifC43Sync with a tunnel removal arriving in the middle of the sync: at the
+// RPC (point, k) the real UnpublishTunnel (release=false) or ReleaseTunnel (release=true) is called
+// for `hostname` on the same client. Returns additionally whether the point was reached, the live
+// configuration right after the removal returned (mid) and whether the removal reported an error.
+func VerifC43SyncRm(path string, tunnels []Tunnel, registered []string, registeredErr bool, fresh []string,
+	point string, k int, hostname string, release bool) (out []Tunnel, calls int, published []string, fired bool, mid []Tunnel, rmErr bool) {
+	cfg := &Config{path: path, router: skipmap.NewString[route](), Version: 2, Apex: "apex.example:443",
+		PrivKey: "k", Tunnels: append([]Tunnel{}, tunnels...)}
+	fake := &verifC43RmTun{verifC43Tun: verifC43Tun{registered: registered, registeredErr: registeredErr, fresh: fresh},
+		point: point, k: k}
+	c := &Client{
+		ClientConfig: ClientConfig{Logger: zap.NewNop(), Configuration: cfg},
+		rootDomain:   atomic.NewString("example.com"),
+		proxies:      skipmap.NewString[*httpProxy](),
+		connections:  skipmap.NewString[*protocol.Node](),
+		tunnelClient: fake,
+		closeCh:      make(chan struct{}),
+	}
+	c.connections.Store("node-1", &protocol.Node{Id: 1, Address: "node-1"})
+	fake.hook = func() {
+		var err error
+		if release {
+			err = c.ReleaseTunnel(context.Background(), Tunnel{Hostname: hostname})
+		} else {
+			err = c.UnpublishTunnel(context.Background(), Tunnel{Hostname: hostname})
+		}
+		rmErr = err != nil
+		mid = append([]Tunnel{}, c.GetCurrentConfig().Tunnels...)
+	}
+	c.SyncConfigTunnels(context.Background())
+	return append([]Tunnel{}, c.Configuration.Tunnels...), fake.Calls, fake.Published, fake.Fired, mid, rmErr
+}
